@@ -85,6 +85,32 @@ def gen(tier, rng):
                                             chk=("pipeline", "ret_ok"), g=g, **kw))
                 cases.append(rz.resize_case(pt, sw, sh, dw, dh, alpha=True, src_c={"g": "data", "v": x}, log=("dst",),
                                             chk=("pipeline", "ret_ok", "same_alpha"), g=g, **kw))
+    # crops deep inside the source with a strong down-scale: the stretched kernel reaches far beyond the crop box, into
+    # source pixels that must have been premultiplied like the rest (opaque source: alpha-on == alpha-off; the alpha plane
+    # is a plain convolution; recoloured transparent pixels outside the box never show)
+    for pt in ALPHA_PTS:
+        isf = rz.PT[pt]["comp"] == "f32"
+        for (sw, sh, dw, dh, box) in ((28, 24, 3, 3, (8, 6, 12, 12)), (40, 9, 4, 3, (14, 3, 12, 3)), (9, 36, 3, 2, (3, 12, 3, 10))):
+            for (alg, flt, m) in (("conv", "Lanczos3", 1), ("conv", "Bilinear", 1), ("ss", "CatmullRom", 2)):
+                n += 1
+                if tier == "quick" and rz.pick(n, 124, [0, 1]):
+                    continue
+                kw = dict(alg=alg, flt=flt, m=m, box=box, Q=1, cpu=rz.pick(n, 122, rz.CPUS))
+                o = image(pt, sw, sh, rng, "opaque")
+                g += 1
+                cases.append(rz.resize_case(pt, sw, sh, dw, dh, alpha=False, src_c={"g": "data", "v": o}, log=("dst",), chk=("pipeline", "ret_ok"), g=g, **kw))
+                cases.append(rz.resize_case(pt, sw, sh, dw, dh, alpha=True, src_c={"g": "data", "v": o}, log=("dst",),
+                                            chk=("pipeline", "ret_ok") + (("memo_ulp",) if isf else ("memo_exact",)), g=g, echo={"ulps": 4}, **kw))
+                x = image(pt, sw, sh, rng, "any")
+                g += 1
+                cases.append(rz.resize_case(pt, sw, sh, dw, dh, alpha=False, src_c={"g": "data", "v": x}, log=("dst",), chk=("pipeline", "ret_ok"), g=g, **kw))
+                cases.append(rz.resize_case(pt, sw, sh, dw, dh, alpha=True, src_c={"g": "data", "v": x}, log=("dst",), chk=("pipeline", "ret_ok", "same_alpha"), g=g, **kw))
+                a = image(pt, sw, sh, rng, "zero_some")
+                b = recolour(pt, a, rng)
+                g += 1
+                cases.append(rz.resize_case(pt, sw, sh, dw, dh, alpha=True, src_c={"g": "data", "v": a}, log=("dst",), chk=("pipeline", "ret_ok", "alpha_zero"), g=g, **kw))
+                cases.append(rz.resize_case(pt, sw, sh, dw, dh, alpha=True, src_c={"g": "data", "v": b}, log=("dst",),
+                                            chk=("pipeline", "ret_ok", "alpha_zero", "memo_exact"), g=g, **kw))
     if tier != "quick":
         # seeded random geometries / crops / algorithms: recoloured transparent pixels never show
         for i in range(5000):
